@@ -340,6 +340,102 @@ pub fn check<S: Src>(s: &mut S) {
     assert!(h2.len == 2 && h2.buf[0] == x0 >> 1 && h2.buf[1] == x1, "struct-hash-feed");
 }
 """, unwind=18)
+    # the type itself, const parameters and items in scope called like the parameters and locals of the generated methods
+    add("locals|type-and-const-param-names", "tuple structs and const parameters called rhs / other / this / source / f / state / o (the standard derives accept them)",
+        """
+#[derive_ex(Add, AddAssign, Sub)]
+pub struct rhs(pub W, pub W);
+#[derive_ex(Clone, PartialEq, Eq, PartialOrd, Ord, Hash, Debug, Default)]
+pub struct other(pub u8, #[ord(reverse)] pub u8);
+#[derive_ex(Clone, PartialEq, PartialOrd, Hash, Debug)]
+pub struct this(#[ord(by = crate::support::by_ord::<1, u8>)] #[partial_ord(by = crate::support::by_po_total::<1, u8>)] #[hash(key = crate::support::kk::<1, _>(&$))] pub u8);
+#[derive_ex(Clone, PartialEq, Debug)]
+pub struct source(pub R);
+#[derive_ex(Clone, Debug, Hash, PartialEq)]
+pub struct f(pub u8);
+#[derive_ex(Hash, PartialEq, Debug, Clone)]
+pub struct state(pub u8);
+#[derive_ex(Clone, PartialEq, Eq, PartialOrd, Ord, Hash, Debug)]
+pub enum o { o(u8), to_index(u8), lhs }
+""", CMP_ORACLE + """
+pub fn check<S: Src>(s: &mut S) {
+    let (a, b, c, d) = (s.u8(), s.u8(), s.u8(), s.u8());
+    let r = rhs(W(a), W(b)) + rhs(W(c), W(d));
+    assert!((r.0).0 == wop(1, a, c) && (r.1).0 == wop(1, b, d), "add-on-type-named-rhs");
+    let (x, y) = (other(a, b), other(c, d));
+    let e = lex(&[a, 255 - b], &[c, 255 - d]);
+    assert!((x == y) == (e == Ordering::Equal) && x.partial_cmp(&y) == Some(e) && x.cmp(&y) == e, "cmp-on-type-named-other");
+    let (p, q) = (this(a), this(c));
+    assert!((p == q) == (a >> 1 == c >> 1) && p.partial_cmp(&q) == Some((a >> 1).cmp(&(c >> 1))), "by-on-type-named-this");
+    let mut h = Rec::new();
+    Hash::hash(&p, &mut h);
+    assert!(h.len == 1 && h.buf[0] == a >> 1, "hash-on-type-named-this");
+    let mut z = source(R(a));
+    z.clone_from(&source(R(b)));
+    assert!((z.0).0 == b, "clone_from-on-type-named-source");
+    let mut h2 = Rec::new();
+    Hash::hash(&state(a), &mut h2);
+    assert!(h2.len == 1 && h2.buf[0] == a, "hash-on-type-named-state");
+    let (u, v) = (if s.bool() { o::o(a) } else { o::lhs }, o::to_index(b));
+    assert!(u.cmp(&v) == (if matches!(u, o::o(_)) { Ordering::Less } else { Ordering::Greater }) && u != v, "enum-named-o");
+}
+""", unwind=18)
+    add("locals|const-param-names", "const parameters called rhs / this / other / state / f / source / o",
+        """
+#[derive_ex(Add, AddAssign)]
+pub struct G1<const rhs: usize>(pub W);
+#[derive_ex(Clone, PartialEq, PartialOrd, Hash, Debug, Default, Neg)]
+pub struct G2<const this: usize, const other: usize, const state: usize, const f: usize, const source: usize, const o: usize>(pub i8);
+""", """
+pub fn check<S: Src>(s: &mut S) {
+    let (a, b) = (s.u8(), s.u8());
+    let mut g = G1::<3>(W(a));
+    g += G1::<3>(W(b));
+    assert!((g.0).0 == wop(1 | ASSIGN, a, b) || (g.0).0 == wop(1, a, b), "add-assign-with-const-param-named-rhs");
+    vassume(a != 128);
+    let n = -G2::<1, 2, 3, 4, 5, 6>(a as i8);
+    assert!(n.0 == -(a as i8), "neg-with-const-params-named-like-locals");
+    let (p, q) = (G2::<1, 2, 3, 4, 5, 6>(a as i8), G2::<1, 2, 3, 4, 5, 6>(b as i8));
+    assert!((p == q) == (a == b) && p.partial_cmp(&q) == Some((a as i8).cmp(&(b as i8))), "cmp-with-const-params-named-like-locals");
+}
+""", unwind=18)
+    add("locals|items-in-scope", "constants and unit structs in scope called like the parameters and locals of the generated methods; user callbacks called other / state",
+        """
+pub const other: u8 = 1;
+pub const rhs: u8 = 2;
+pub const state: u8 = 3;
+pub const f: u8 = 4;
+pub const source: u8 = 5;
+pub const this: u8 = 6;
+pub const o: u8 = 7;
+pub const to_index: u8 = 8;
+pub const lhs: u8 = 9;
+pub struct cmp;
+pub struct eq;
+pub struct partial_cmp;
+pub struct hash;
+#[derive_ex(Clone, PartialEq, Eq, PartialOrd, Ord, Default, Add, Neg)]
+pub struct T1 { #[ord(by = crate::support::by_ord::<1, Evil>)] #[partial_ord(by = crate::support::by_po_total::<1, Evil>)] pub a: Evil, pub b: Evil }
+#[derive_ex(Clone, PartialEq, Eq, PartialOrd, Ord, Hash, Debug)]
+pub enum T2 { A(u8), B { x: u8 }, C }
+#[derive_ex(Hash, PartialEq)]
+pub struct T3 { #[hash(by = crate::support::by_hash::<1, u8, _>)] #[eq(key = crate::support::kk::<1, _>(&$))] pub a: u8 }
+""", CMP_ORACLE + """
+pub fn check<S: Src>(s: &mut S) {
+    let (a, b, c, d) = (s.u8(), s.u8(), s.u8(), s.u8());
+    let (x, y) = (T1 { a: Evil(a), b: Evil(b) }, T1 { a: Evil(c), b: Evil(d) });
+    let e = lex(&[a >> 1, b], &[c >> 1, d]);
+    assert!((x == y) == (e == Ordering::Equal) && x.partial_cmp(&y) == Some(e) && x.cmp(&y) == e, "struct-cmp");
+    let r = T1 { a: Evil(a), b: Evil(b) } + T1 { a: Evil(c), b: Evil(d) };
+    assert!(r.a.0 == wop(1, a, c) && r.b.0 == wop(1, b, d), "struct-add");
+    let (u, v) = (T2::A(a), if s.bool() { T2::B { x: b } } else { T2::A(c) });
+    let want = match &v { T2::B { .. } => Ordering::Less, _ => a.cmp(&c) };
+    assert!(u.cmp(&v) == want && u.partial_cmp(&v) == Some(want) && (u == v) == (want == Ordering::Equal), "enum-cmp");
+    let mut h = Rec::new();
+    Hash::hash(&T3 { a }, &mut h);
+    assert!(h.len >= 1, "hash-by");
+}
+""", unwind=18)
     add("eq|shadowed-Eq-and-Fn", "Eq and by = ... with `Eq` and `Fn` shadowed at the use site",
         """
 #[derive_ex(PartialEq, Eq, PartialOrd, Ord)]
